@@ -295,7 +295,7 @@ def run(ctx):
         r = ctx.mc("RedirectMC", cfgname)
         if not r.ok:
             raise MachineryError("Redirect spec violates its own invariants (%s): %s" % (cfgname, r.error))
-    ctx.require_actions("RedirectMC", ["Start", "Respond", "Follow", "FinishOk", "FinishFail"])
+    ctx.require_actions("RedirectMC", ["Start", "Env", "Follow", "FinishOk", "FinishFail"])
 
     traces = []
     # exhaustive short chains over a small alphabet
